@@ -43,6 +43,7 @@ FUNCTIONS = [
     "pyxel.evaluator:eval_range",
 ]
 STUBS = [
+    "numba.njit -> identity (the cluster binning of Charge.array runs un-jitted); charge is written alternately as an array and as a positioned cluster",
     "pyxel.exposure.exposure._extract_datatree_2d returns an empty DataTree during symbolic runs "
     "(symbolic arrays cannot enter xarray); fidelity replays use the real function whenever the write pattern "
     "initialises the image bucket (real pyxel cannot merge >= 2 steps without it)",
@@ -77,13 +78,18 @@ def tasks(tier, seed):
             out.append({"fn": "ctor", "kwargs": {"n": n, "via": via}, "label": f"ctor/{via}/n={n}"})
     for n in ns:
         out.append({"fn": "loop", "kwargs": {"n": n, "via": "ctor", "flags": "all"}, "label": f"loop/ctor/n={n}"})
+        if n <= 4:
+            out.append({"fn": "loop", "kwargs": {"n": n, "via": "ctor", "flags": "all", "cluster_parity": 0}, "label": f"loop/ctor/n={n}/clusters_first"})
     for n in (1, 2, 3) if tier == "quick" else (1, 2, 3, 4, 6):
         for via in ("setter_times", "setter_start", "replace", "scalar"):
             if via == "scalar" and n > 1:
                 continue
             out.append({"fn": "loop", "kwargs": {"n": n, "via": via, "flags": "all"}, "label": f"loop/{via}/n={n}"})
     for n in (1, 2):
-        out.append({"fn": "loop", "kwargs": {"n": n, "via": "ctor", "flags": "sym"}, "label": f"loop/writes=symbolic/n={n}"})
+        out.append({"fn": "loop", "kwargs": {"n": n, "via": "ctor", "flags": "sym"}, "label": f"loop/writes=symbolic/n={n}", "caps": {"max_seconds": 300}})
+    out.append({"fn": "loop", "kwargs": {"n": 1, "via": "ctor", "flags": "sym", "cluster_parity": 0}, "label": "loop/writes=symbolic/n=1/clusters_first"})
+    if tier == "thorough":
+        out.append({"fn": "loop", "kwargs": {"n": 2, "via": "ctor", "flags": "sym", "cluster_parity": 0}, "label": "loop/writes=symbolic/n=2/clusters_first"})
     return out
 
 
@@ -166,7 +172,17 @@ def _processor():
     return Processor(detector=det, pipeline=pipe)
 
 
-def _drive(n, via, ts, s, nd, prior, writes, flags, symbolic):
+def _cluster(d, xp, number):
+    """One charge cluster (particle interface) in the middle of pixel (0, 0)."""
+    import numpy as np
+
+    z = xp.zeros(1)
+    mk = (lambda v: xp.asarray([v])) if xp is symnp else (lambda v: np.array([v], dtype=float))
+    d.charge.add_charge(particle_type="e", particles_per_cluster=mk(number), init_energy=z, init_ver_position=mk(5.0), init_hor_position=mk(5.0),
+                        init_z_position=z, init_ver_velocity=z, init_hor_velocity=z, init_z_velocity=z)
+
+
+def _drive(n, via, ts, s, nd, prior, writes, flags, symbolic, cluster_parity=1):
     """Shared by the symbolic run and the concrete fidelity replay.  Returns (accepted, records)."""
     import numpy as np
 
@@ -194,7 +210,7 @@ def _drive(n, via, ts, s, nd, prior, writes, flags, symbolic):
                 "scene": bool(d.scene.data.is_empty),
                 "charge_frame": d.charge.frame_empty(),
             }
-            rec["charge_array"] = d.charge._array.copy()
+            rec["charge_array"] = d.charge.array.copy()  # public read, as the models and the result extraction do
             rec["pixel"] = d.pixel.array.copy()
         elif tag == "write":
             i = sum(1 for r in vxprobes.TRACE if r["tag"] == "write") - 1
@@ -207,12 +223,23 @@ def _drive(n, via, ts, s, nd, prior, writes, flags, symbolic):
             if fl["image"]:
                 d.image.array = wv["image"]
             if fl["charge"]:
-                d.charge.add_charge_array(wv["charge"])
+                if i % 2 == cluster_parity:
+                    _cluster(d, xp, wv["charge"][0, 0])  # through the particle (data-frame) interface
+                else:
+                    d.charge.add_charge_array(wv["charge"])
         elif tag == "last":
             rec["pixel_final"] = d.pixel.array.copy()
+            rec["charge_final"] = d.charge.array.copy()  # the real result extraction reads the charge bucket at the end of every step
 
     vxprobes.reset(hook)
     accepted = True
+    import numba
+
+    real_njit = numba.njit
+    if not symbolic:
+        # pyxel re-compiles its local jitted binning function at every read of a charge frame (~2 s each): the concrete
+        # replays run it un-jitted (same Python code); the jitted path itself is exercised by the C14 replays
+        numba.njit = lambda f=None, **kw: f if f is not None else (lambda g: g)
     try:
         if via == "ctor":
             ro = Readout(times=ts, start_time=s, non_destructive=nd)
@@ -247,12 +274,14 @@ def _drive(n, via, ts, s, nd, prior, writes, flags, symbolic):
                 ex._extract_datatree_2d = old
     except ValueError:
         accepted = False
+    finally:
+        numba.njit = real_njit
     recs = list(vxprobes.TRACE)
     vxprobes.reset(None)
     return accepted, recs
 
 
-def loop(n, via, flags):
+def loop(n, via, flags, cluster_parity=1):
     ts = [vx.real(f"t{i}") for i in range(n)]
     s = vx.real("s")
     if via == "setter_times":
@@ -288,7 +317,9 @@ def loop(n, via, flags):
         import xarray as xr
 
         p.attr("pyxel.exposure.exposure", "_extract_datatree_2d", lambda detector: xr.DataTree(), "empty DataTree")
-        accepted, recs = _drive(n, via, ts, s, nd, prior, writes, fl, True)
+        p.attr("numba", "njit", lambda f=None, **kw: f if f is not None else (lambda g: g), "identity (cluster binning)")
+        p.numpy("pyxel.detectors.geometry")
+        accepted, recs = _drive(n, via, ts, s, nd, prior, writes, fl, True, cluster_parity)
 
     valid = _valid(ts, s)
     vx.prove(f"C02/loop/accept_iff_valid/{tag}", valid == accepted)
@@ -352,7 +383,7 @@ def fidelity_loop(kwargs, w):
         fl = [{b: bool(inp[f"f{i}_{b}"]) for b in BUCKETS} for i in range(n)]
     else:
         fl = [{b: True for b in BUCKETS} for i in range(n)]
-    accepted, recs = _drive(n, via, ts, s, nd, prior, writes, fl, False)
+    accepted, recs = _drive(n, via, ts, s, nd, prior, writes, fl, False, kwargs.get("cluster_parity", 1))
     obs = unjson(w["observed"])
     if accepted != obs["accepted"]:
         return (not exact), {"concrete_accepts": accepted, "symbolic_accepts": obs["accepted"], "exact_inputs": exact}
@@ -451,7 +482,7 @@ def replay(oid, kwargs, model, data):
     writes = [{k: arr(f"w{i}_{k}", np.uint16 if k == "image" else float) for k in ("pixel", "photon", "signal", "image", "charge")} for i in range(n)]
     fl = [{b: bool(model.get(f"f{i}_{b}", True)) for b in BUCKETS} for i in range(n)]
     valid = ts[0] != 0 and s < ts[0] and all(a < b for a, b in zip(ts, ts[1:]))
-    accepted, recs = _drive(n, via, ts, s, nd, prior, writes, fl, False)
+    accepted, recs = _drive(n, via, ts, s, nd, prior, writes, fl, False, kwargs.get("cluster_parity", 1))
     if accepted != valid:
         return True, {"valid": valid, "accepted": accepted, "times": ts, "start": s, "probe_calls": len(recs)}
     if not accepted:
